@@ -6,7 +6,6 @@ import (
 	"io"
 
 	"github.com/ohler55/ojg/jp"
-	"github.com/ohler55/ojg/sen"
 	"github.com/ohler55/slip"
 	"github.com/ohler55/slip/pkg/flavors"
 )
@@ -87,7 +86,7 @@ func readBag(s *slip.Scope, obj *flavors.Instance, value, path slip.Object, dept
 	if !ok {
 		slip.TypePanic(s, depth, "stream", value, "input-stream")
 	}
-	v := sen.MustParseReader(r)
+	v := mustParseSENReader(r)
 	if options.Converter != nil {
 		v = options.Converter.Convert(v)
 	}
